@@ -106,6 +106,15 @@ def np_any(eng, st, args, kwargs, line):
     return val(st, VBool(z3.Exists([j], z3.And(0 <= j, j < a.n, z3.Select(st.heap[a.obj], eng.arr_index_term(a, j))))))
 
 
+@model("numpy.all")
+def np_all(eng, st, args, kwargs, line):
+    a = args[0]
+    if not (isinstance(a, VArr) and st.hmeta[a.obj]["kind"] == "bool"):
+        raise OutOfSubset(f"line {line}: np.all of {a!r}")
+    j = smt.fresh("jall")
+    return val(st, VBool(z3.ForAll([j], z3.Implies(z3.And(0 <= j, j < a.n), z3.Select(st.heap[a.obj], eng.arr_index_term(a, j))))))
+
+
 _where1 = MODELS.get("numpy.where")
 
 
